@@ -73,9 +73,9 @@ theorem runW_isolated_gen {tbl : List ExecAcc} (h : tableReadonly tbl = true) (I
 /-! The audited table in its two states, and cheap derivations of row safety (so that no proof has to compare
 every regenerated row with every safe row). -/
 
-/-- The exec access table of the pinned source: the safe rows, with the two template rows still going straight into
-setArrayValues (vm.go getTaggedTmplObject.exec). -/
-def execAccCurrent : List ExecAcc :=
+/-- The exec access table BEFORE fix 85b307c: the safe rows, with the two template rows still going straight into
+setArrayValues (regression lemmas only). -/
+def execAccPrefix : List ExecAcc :=
   safeRows.map fun a => if a.sink == "arg0 cloneTemplateValues" then { a with sink := "arg1 setArrayValues" } else a
 
 theorem safeRows_no_write : ∀ a ∈ safeRows, (a.kind == "write") = false := by decide
@@ -94,9 +94,9 @@ theorem cloned_rows_map_to_template_rows :
     ∀ b ∈ safeRows, (b.sink == "arg0 cloneTemplateValues") = true →
       { b with sink := "arg1 setArrayValues" } ∈ templateSharedRows := by decide
 
-theorem current_unsafe_rows : ∀ a ∈ execAccCurrent, a.noSharedWrite = false → a ∈ templateSharedRows := by
+theorem current_unsafe_rows : ∀ a ∈ execAccPrefix, a.noSharedWrite = false → a ∈ templateSharedRows := by
   intro a ha hn
-  unfold execAccCurrent at ha
+  unfold execAccPrefix at ha
   rw [List.mem_map] at ha
   obtain ⟨b, hb, rfl⟩ := ha
   by_cases hc : (b.sink == "arg0 cloneTemplateValues") = true
